@@ -15,13 +15,13 @@ import (
 )
 
 type CheckSpec struct {
-	Property string
-	Level    string
-	Profiles []string // cycled through by run index
-	Opts     ExecOpts
-	QuickS   int
+	Property  string
+	Level     string
+	Profiles  []string // cycled through by run index
+	Opts      ExecOpts
+	QuickS    int
 	ThoroughS int
-	Custom   string // "" = schedule search; otherwise a custom engine name
+	Custom    string // "" = schedule search; otherwise a custom engine name
 }
 
 var Checks = map[string]CheckSpec{
@@ -41,7 +41,7 @@ var Checks = map[string]CheckSpec{
 	"C14": {Property: "C14", Level: "exploration", Profiles: []string{"replicas"}, QuickS: 50, ThoroughS: 900},
 	"C15": {Property: "C15", Level: "exploration", Profiles: []string{"genesis"}, QuickS: 50, ThoroughS: 600},
 	"C16": {Property: "C16", Level: "exploration", Profiles: []string{"book", "rounds", "fixed", "vesting"}, Opts: ExecOpts{Queries: true, QueryEvery: 4}, QuickS: 45, ThoroughS: 600},
-	"C17": {Property: "C17", Level: "fault_enumeration", Custom: "hooks", QuickS: 40, ThoroughS: 600},
+	"C17": {Property: "C17", Level: "fault_enumeration", Custom: "hooks", Profiles: []string{"hooks", "book", "clock", "fixed"}, QuickS: 40, ThoroughS: 600},
 	"C18": {Property: "C18", Level: "exploration", Profiles: []string{"messages", "general"}, Opts: ExecOpts{Trace: true}, QuickS: 50, ThoroughS: 600},
 	"C19": {Property: "C19", Level: "exploration", Profiles: []string{"concurrent", "general"}, Opts: ExecOpts{Trace: true}, QuickS: 50, ThoroughS: 600},
 }
@@ -201,14 +201,43 @@ func RunWorker(spec CheckSpec, base int64, worker int, budget time.Duration, max
 	out := &WorkerOut{Worker: worker, Sigs: map[string]int{}, Stats: newStats()}
 	start := time.Now()
 	seenV := map[string]bool{}
+	var queue []*Schedule // variants waiting to be executed (fault enumeration engines)
+	var queueProf []string
 	for run := 0; ; run++ {
 		if time.Since(start) > budget || (maxRuns > 0 && run >= maxRuns) {
 			break
 		}
 		seed := SeedFor(base, worker, run)
 		prof := spec.Profiles[run%len(spec.Profiles)]
-		s := Generate(seed, prof)
+		var s *Schedule
+		if len(queue) > 0 {
+			s, prof = queue[0], queueProf[0]
+			queue, queueProf = queue[1:], queueProf[1:]
+			seed = s.Seed
+		} else {
+			s = Generate(seed, prof)
+			if spec.Custom == "hooks" {
+				s.Cfg.Listeners = 1 + run%3
+				s.Cfg.Replicas = 0
+			}
+		}
 		res := Execute(s, spec.Opts)
+		if spec.Custom == "hooks" && res.HarnessErr == "" && !hasHookFault(s) {
+			// enumerate: every hook method this history triggers x every listener position
+			done := map[string]bool{}
+			for _, hs := range res.HookSites {
+				if done[hs.Method] {
+					continue
+				}
+				done[hs.Method] = true
+				for j := 0; j < s.Cfg.Listeners; j++ {
+					v := cloneSchedule(s)
+					v.Blocks[hs.Block].Faults = append(v.Blocks[hs.Block].Faults, Fault{Kind: FHookFail, Method: hs.Method, Listener: j})
+					queue = append(queue, v)
+					queueProf = append(queueProf, prof)
+				}
+			}
+		}
 		out.Runs++
 		if len(out.Seeds) < 50 {
 			out.Seeds = append(out.Seeds, seed)
@@ -467,7 +496,7 @@ func RunCheck(self string, prop, tier, verifDir string) int {
 	start := time.Now()
 	fmt.Printf("check %s tier=%s VERIF_SEED=%d workers=%d budget=%ds\n", prop, tier, seed, workers, budgetS)
 	spec = SpecFor(prop, tier)
-	if spec.Custom != "" {
+	if spec.Custom != "" && spec.Custom != "hooks" {
 		return runCustom(spec, tier, seed, verifDir, start)
 	}
 	tmp, err := os.MkdirTemp("", "verif-"+prop+"-")
@@ -605,7 +634,11 @@ func writeEvidence(spec CheckSpec, tier string, seed int64, verifDir string, tot
 	evals := total.Runs
 	if spec.Level == "fault_enumeration" {
 		distinct = len(st.EnumPairs)
-		rule = "fault enumeration: for every block of every generated history in which block processing makes n >= 1 bank/pool calls, a failure is injected into each call k < n on a scratch replica restored to the pre-block state; distinct = distinct (operation at the failing call, position of the affected auction among those processed, k) triples; evaluations = injected executions + schedules"
+		if spec.Custom == "hooks" {
+			rule = "fault enumeration: every generated history is executed once with L = 1..3 recording listeners; then, for every hook method it triggers and every listener position j < L, it is re-executed with listener j failing at the first call of that method; distinct = distinct (hook method, L, failing position, triggering operation) tuples in which the injected failure actually fired; evaluations = executions"
+		} else {
+			rule = "fault enumeration: for every block of every generated history in which block processing makes n >= 1 bank/pool calls, a failure is injected into each call k < n on a scratch replica restored to the pre-block state; distinct = distinct (operation at the failing call, position of the affected auction among those processed, k) triples; evaluations = injected executions + schedules"
+		}
 		evals = total.Runs + st.Probes["enum_injections"]
 	}
 	samples := []interface{}{}
@@ -620,26 +653,26 @@ func writeEvidence(spec CheckSpec, tier string, seed int64, verifDir string, tot
 		perHour = float64(total.Runs) / wall * 3600
 	}
 	cov := map[string]interface{}{
-		"evaluations":         evals,
-		"distinct_nontrivial": distinct,
-		"rule":                rule,
-		"samples":             samples,
-		"schedules_executed":  total.Runs,
-		"nontrivial_runs":     total.NonTrivial,
-		"runs_per_hour":       int(perHour),
-		"blocks":              st.Blocks,
-		"txs":                 map[string]int{"total": st.Txs, "accepted": st.TxOK, "rejected_by_message": st.TxRejected, "rejected_by_ante": st.TxAnte},
-		"keeper_ops":          map[string]int{"total": st.PreOps, "accepted": st.PreOK},
-		"simulated_days":      st.SimDays,
-		"faults_fired":        st.Faults,
-		"faults_configured":   st.FaultsCfg,
-		"probes":              st.Probes,
+		"evaluations":              evals,
+		"distinct_nontrivial":      distinct,
+		"rule":                     rule,
+		"samples":                  samples,
+		"schedules_executed":       total.Runs,
+		"nontrivial_runs":          total.NonTrivial,
+		"runs_per_hour":            int(perHour),
+		"blocks":                   st.Blocks,
+		"txs":                      map[string]int{"total": st.Txs, "accepted": st.TxOK, "rejected_by_message": st.TxRejected, "rejected_by_ante": st.TxAnte},
+		"keeper_ops":               map[string]int{"total": st.PreOps, "accepted": st.PreOK},
+		"simulated_days":           st.SimDays,
+		"faults_fired":             st.Faults,
+		"faults_configured":        st.FaultsCfg,
+		"probes":                   st.Probes,
 		"distinct_abstract_states": len(st.States),
-		"relaxations_used":    st.Relax,
-		"seeds_first":         firstN(total.Seeds, 8),
-		"known_findings_hit":  nKnown,
-		"components_real":     "x/fundraising (keeper, msg server, query server, genesis, module), BaseApp incl. ante chain, signature verification, tx decoding, msg routing, ValidateBasic, cache-wrapped tx execution, optimistic execution, x/auth, x/bank, x/distribution, x/mint, x/staking, IAVL + rootmulti store over MemDB",
-		"components_stub":     "CometBFT (consensus, mempool, p2p, RPC, WAL) -> seeded scheduler; disk -> MemDB snapshots; wall clock -> never read; block time -> schedule",
+		"relaxations_used":         st.Relax,
+		"seeds_first":              firstN(total.Seeds, 8),
+		"known_findings_hit":       nKnown,
+		"components_real":          "x/fundraising (keeper, msg server, query server, genesis, module), BaseApp incl. ante chain, signature verification, tx decoding, msg routing, ValidateBasic, cache-wrapped tx execution, optimistic execution, x/auth, x/bank, x/distribution, x/mint, x/staking, IAVL + rootmulti store over MemDB",
+		"components_stub":          "CometBFT (consensus, mempool, p2p, RPC, WAL) -> seeded scheduler; disk -> MemDB snapshots; wall clock -> never read; block time -> schedule",
 	}
 	if len(st.Porcupine) > 0 {
 		cov["porcupine"] = st.Porcupine
@@ -682,4 +715,15 @@ func firstN(xs []int64, n int) []int64 {
 func runCustom(spec CheckSpec, tier string, seed int64, verifDir string, start time.Time) int {
 	fmt.Println("custom engine not built yet:", spec.Custom)
 	return 2
+}
+
+func hasHookFault(s *Schedule) bool {
+	for _, b := range s.Blocks {
+		for _, f := range b.Faults {
+			if f.Kind == FHookFail {
+				return true
+			}
+		}
+	}
+	return false
 }
